@@ -199,8 +199,10 @@ func (lr *lifeRun) exec(a *LifeAct) (string, string) {
 			args := sgbucket.FeedArguments{ID: a.F, Backfill: sgbucket.FeedNoBackfill, Terminator: lf.term, DoneChan: lf.done}
 			var err error
 			switch a.Fk {
-			case "dump":
-				args.Backfill = 0
+			case "dump", "dumpnb":
+				if a.Fk == "dump" {
+					args.Backfill = 0
+				}
 				args.Dump = true
 				var ds sgbucket.DataStore
 				if ds, err = b.NamedDataStore(lifeColl(a.C)); err == nil {
